@@ -110,6 +110,14 @@ fn scripts(k: usize, deviations: usize) -> Vec<Vec<f64>> {
             out.push(s);
         }
     }
+    // a strongly NEGATIVE draw needs two deviations in adjacent positions (u1 = 1e-300 for the radius, u2 = 0.5 for
+    // the sign of the Box-Muller pair): that one pair is part of the alphabet at every bound
+    for i in 0..k.saturating_sub(1) {
+        let mut s = vec![1.0; i + 2];
+        s[i] = 1e-300;
+        s[i + 1] = 0.5;
+        out.push(s);
+    }
     if deviations >= 2 {
         for i in 0..k {
             for j in (i + 1)..k {
@@ -145,16 +153,24 @@ pub fn run(ctx: &Ctx) -> Report {
             if weighted && q.tables.contains(&"users") && q.tables.len() == 1 && ctx.tier == Tier::Quick {
                 continue;
             }
-            let name = format!("eps=1,delta=0.001,cu={cu},tau_share=0.5,pu={}", if weighted { "direct-weighted" } else { "fk-path" });
-            let dp = DpParameters::new(1.0, 1e-3, 0.5, 100.0, 1.0, cu);
-            if !ctx.wants(&format!("{} [{}]", q.sql, name)) {
-                continue;
-            }
-            let pu = if weighted { weighted_privacy_unit() } else { crate::c18::privacy_unit() };
-            match compile_dp_with(&q, &name, &dp, &relations, pu) {
-                CompileOutcome::Ok(c) => configs.push(c),
-                CompileOutcome::Refused(e) => head.reach("refused", &format!("{} :: {}", q.sql, e.chars().take(60).collect::<String>())),
-                CompileOutcome::Panic(p) => head.reach("panic_sites(left to C18)", &p.site()),
+            // eps = 1: tau is far above any count of the tiny databases (a key is released only by a large positive
+            // draw); eps = 80 (Cu = 1, foreign-key path): tau is about 1.4, so a key held by two units is released
+            // without noise and must be suppressed by a large negative draw
+            for eps in [1.0, 80.0] {
+                if eps != 1.0 && (weighted || cu != 1) {
+                    continue;
+                }
+                let name = format!("eps={eps},delta=0.001,cu={cu},tau_share=0.5,pu={}", if weighted { "direct-weighted" } else { "fk-path" });
+                let dp = DpParameters::new(eps, 1e-3, 0.5, 100.0, 1.0, cu);
+                if !ctx.wants(&format!("{} [{}]", q.sql, name)) {
+                    continue;
+                }
+                let pu = if weighted { weighted_privacy_unit() } else { crate::c18::privacy_unit() };
+                match compile_dp_with(&q, &name, &dp, &relations, pu) {
+                    CompileOutcome::Ok(c) => configs.push(c),
+                    CompileOutcome::Refused(e) => head.reach("refused", &format!("{} :: {}", q.sql, e.chars().take(60).collect::<String>())),
+                    CompileOutcome::Panic(p) => head.reach("panic_sites(left to C18)", &p.site()),
+                }
             }
         }
     }
@@ -377,6 +393,11 @@ fn explore(ctx: &Ctx, head: &mut Report, world: &World, configs: Vec<Compiled>, 
                                 }
                             } else if passed.rows.is_empty() && !counts.rows.is_empty() {
                                 r.reach("reach", "key-suppressed");
+                            }
+                            if let Some(ci) = counts.cols.iter().position(|x| x.contains("COUNT_DISTINCT")) {
+                                if counts.rows.iter().any(|row| row[ci].num().map_or(false, |x| x > pl.tau)) && passed.rows.len() < counts.rows.iter().filter(|row| row[ci].num().map_or(false, |x| x > pl.tau)).count() {
+                                    r.reach("reach", "key-above-tau-suppressed-by-negative-noise");
+                                }
                             }
                         }
                     }
